@@ -521,7 +521,7 @@ proofs += proofs_am
 TU_MR = ("tu_multi_recordable", '#include "opentelemetry/sdk/trace/multi_recordable.h"\n')
 MR_PRE = r"""
 size_t g_k;
-enum { MOP_SetName = 1, MOP_SetStatus, MOP_SetAttribute, MOP_AddEvent };
+enum { MOP_SetName = 1, MOP_SetStatus, MOP_SetAttribute, MOP_AddEvent, MOP_SetStartTime, MOP_SetSpanKind, MOP_SetDuration };
 unsigned long g_calls, g_w_h; int g_w_op; const char *g_w_sv; long g_w_i; const void *g_w_p;      /* number of calls on member recordables; the call number g_k */
 static void xc_havoc_ghosts(void) { size_t a; g_k = a; g_calls = 0; g_w_h = 0; g_w_op = 0; g_w_sv = 0; g_w_i = 0; g_w_p = 0; }
 typedef struct xc_recpair { unsigned long first; xc_handle second; } xc_recpair;       /* value_type of std::map<size_t, std::unique_ptr<Recordable>> */
@@ -559,11 +559,14 @@ def _configure_mr(cfg):
     cfg.ext_q["Recordable::SetName"] = lambda em, node, recv, args: "xc_mrec(%s, MOP_SetName, %s, 0, 0)" % (em.expr(unp(recv)), em.expr(args[0]))
     cfg.ext_q["Recordable::SetStatus"] = lambda em, node, recv, args: "xc_mrec(%s, MOP_SetStatus, %s, (long)(%s), 0)" % (em.expr(unp(recv)), em.expr(args[1]), em.expr(args[0]))
     cfg.ext_q["Recordable::SetAttribute"] = lambda em, node, recv, args: "xc_mrec(%s, MOP_SetAttribute, %s, 0, (const void *)%s)" % (em.expr(unp(recv)), em.expr(args[0]), em.addr_of(args[1]))
+    cfg.ext_q["Recordable::SetStartTime"] = lambda em, node, recv, args: "xc_mrec(%s, MOP_SetStartTime, (string_view){0}, (%s).nanos_since_epoch_, 0)" % (em.expr(unp(recv)), em.expr(args[0]))
+    cfg.ext_q["Recordable::SetSpanKind"] = lambda em, node, recv, args: "xc_mrec(%s, MOP_SetSpanKind, (string_view){0}, (long)(%s), 0)" % (em.expr(unp(recv)), em.expr(args[0]))
+    cfg.ext_q["Recordable::SetDuration"] = lambda em, node, recv, args: "xc_mrec(%s, MOP_SetDuration, (string_view){0}, (long)(%s), 0)" % (em.expr(unp(recv)), em.expr(args[0]))
     cfg.ext_q["Recordable::AddEvent"] = lambda em, node, recv, args: "xc_mrec(%s, MOP_AddEvent, %s, (%s).nanos_since_epoch_, (const void *)%s)" % (em.expr(unp(recv)), em.expr(args[0]), em.expr(args[1]), em.addr_of(args[2]))
 
 
 def mr_contract(op, sv, extra_req, witness):
-    inv = "(g_k < %%s ==> (g_w_h == self->recordables_.items[g_k].second.id && g_w_op == %s && g_w_sv == %s.data_ && %s))" % (op, sv, witness)
+    inv = "(g_k < %%s ==> (g_w_h == self->recordables_.items[g_k].second.id && g_w_op == %s && %s && %s))" % (op, ("g_w_sv == %s.data_" % sv) if sv else "1", witness)
     return {"pre":
         "__CPROVER_requires(__CPROVER_is_fresh(self, sizeof(*self)) && self->recordables_.count <= 64 && __CPROVER_is_fresh(self->recordables_.items, self->recordables_.count * sizeof(xc_recpair))" + extra_req + ")\n"
         "__CPROVER_assigns(MR_GHOSTS)\n"
@@ -578,11 +581,14 @@ contracts_mr = {
     "MultiRecordable_SetName": mr_contract("MOP_SetName", "name", "", "1"),
     "MultiRecordable_SetStatus": mr_contract("MOP_SetStatus", "description", "", "g_w_i == (long)code"),
     "MultiRecordable_SetAttribute": mr_contract("MOP_SetAttribute", "key", " && __CPROVER_is_fresh(value, sizeof(*value))", "g_w_p == value"),
+    "MultiRecordable_SetStartTime": mr_contract("MOP_SetStartTime", None, "", "g_w_i == start_time.nanos_since_epoch_"),
+    "MultiRecordable_SetSpanKind": mr_contract("MOP_SetSpanKind", None, "", "g_w_i == (long)span_kind"),
+    "MultiRecordable_SetDuration": mr_contract("MOP_SetDuration", None, "", "g_w_i == (long)duration"),
     "MultiRecordable_AddEvent": mr_contract("MOP_AddEvent", "name", " && __CPROVER_is_fresh(attributes, sizeof(*attributes))", "g_w_i == timestamp.nanos_since_epoch_ && g_w_p == attributes"),
 }
 proofs_mr = [Proof("MultiRecordable_" + m, [("MultiRecordable::" + m, n)], enforce="MultiRecordable_" + m, timeout=300,
                    desc="the operation reaches the recordable of every processor exactly once with the caller's arguments")
-             for m, n in (("SetName", 1), ("SetStatus", 2), ("SetAttribute", 2), ("AddEvent", 3))]
+             for m, n in (("SetName", 1), ("SetStatus", 2), ("SetAttribute", 2), ("AddEvent", 3), ("SetStartTime", 1), ("SetSpanKind", 1), ("SetDuration", 1))]
 for _p in proofs_mr:
     _p.tu = TU_MR
     _p.pre_c = MR_PRE.replace("typedef struct xc_recpair", "#include \"xc_trace_boundary.h\"\ntypedef struct xc_recpair")
